@@ -632,7 +632,15 @@ pub const META_RECEIVERS: [&str; 36] = [
     "E2", "E3", "EH", "WR", "MP",
 ];
 
+/// Root receivers of a mode, minus what a degraded build (`PARSESIM_SKIP`) left out.
 pub fn receiver_names(mode: &str) -> Vec<&'static str> {
+    let mut v = all_receiver_names(mode);
+    let skipped = crate::skip_table::skipped();
+    v.retain(|n| !skipped.contains(n));
+    v
+}
+
+fn all_receiver_names(mode: &str) -> Vec<&'static str> {
     if mode == "map" {
         vec!["MP", "F3", "RHS", "RHS", "RHI", "RHP", "RHN", "RHH", "RHB", "RHU", "RBS", "RBI", "RBN"]
     } else if mode == "wild" {
@@ -784,7 +792,7 @@ pub fn resolve_remote(env: &mut Env, doc: &InputDoc) {
 }
 
 pub fn generate(run_seed: u64, mode: &'static str, recvs: &'static std::collections::BTreeMap<&'static str, RecvDesc>) -> Scenario {
-    if mode != "map" && Rng::stream(run_seed, "family").pct(40) {
+    if mode != "map" && Rng::stream(run_seed, "family").pct(40) && !elem_receiver_names().is_empty() {
         return generate_elem(run_seed, mode, recvs);
     }
     let mut grng = Rng::stream(run_seed, "gen");
@@ -1006,6 +1014,15 @@ impl<'r> Gen<'r> {
     }
 }
 
+/// Element-level root receivers, minus what a degraded build (`PARSESIM_SKIP`) left out.
+pub fn elem_receiver_names() -> Vec<&'static str> {
+    let mut elem_names: Vec<&'static str> = ELEM_RECEIVERS.to_vec();
+    elem_names.extend(crate::gen_schema::ELEM_NAMES);
+    let skipped = crate::skip_table::skipped();
+    elem_names.retain(|n| !skipped.contains(n));
+    elem_names
+}
+
 pub fn generate_elem(run_seed: u64, mode: &'static str, recvs: &'static std::collections::BTreeMap<&'static str, RecvDesc>) -> Scenario {
     let mut grng = Rng::stream(run_seed, "gen");
     let mut frng = Rng::stream(run_seed, "faults");
@@ -1030,8 +1047,7 @@ pub fn generate_elem(run_seed: u64, mode: &'static str, recvs: &'static std::col
         allow,
         max_depth: grng.range(1, 2),
     };
-    let mut elem_names: Vec<&'static str> = ELEM_RECEIVERS.to_vec();
-    elem_names.extend(crate::gen_schema::ELEM_NAMES);
+    let elem_names = elem_receiver_names();
     let receiver = *grng.pick(&elem_names);
     let top = crate::schema::elems().get(receiver).expect("schema").clone();
     let d = match top.newtype_of {
